@@ -641,5 +641,51 @@ def tree_and_column_names(args):
     return False, "unrepresentable names are refused and members are identifiers"
 
 
+@driver
+def clear_after_fill(args):
+    """every vector column (1-D or nested) is cleared right after the Fill of its row, and nothing but those clears follows the Fill in its block:
+    otherwise the column carries over from one event to the next."""
+    import func_adl_xAOD.common.statement as statement
+    import func_adl_xAOD.common.cpp_types as ctyp
+    from func_adl_xAOD.common.ast_to_cpp_translator import query_ast_visitor
+    seen = []
+    real_emit = query_ast_visitor.emit_query
+
+    def spy(self, e):
+        seen.append(self._gc)
+        return real_emit(self, e)
+    query_ast_visitor.emit_query = spy
+    try:
+        for qs in ["lambda e: e.Jets('A').Select(lambda j: j.pt())",
+                   "lambda e: (e.Jets('A').Select(lambda j: j.pt()), e.Jets('A').Count())",
+                   "lambda e: e.Jets('A').Select(lambda j: e.Tracks('T').Select(lambda t: t.pt()))",
+                   "lambda e: (e.Jets('A').Select(lambda j: e.Tracks('T').Select(lambda t: t.pt())), e.Jets('A').Select(lambda j: j.eta()))",
+                   "lambda e: e.Jets('A').Select(lambda j: e.Tracks('T').Select(lambda t: e.Jets('B').Select(lambda k: k.pt() + t.pt())))"]:
+            seen.clear()
+            try:
+                translate(_dataset().Select(qs))
+            except Exception:
+                continue
+            for gc in seen:
+                vectors = [v for v in gc._class_vars if isinstance(v.cpp_type(), ctyp.collection)]
+                blocks = [gc._block] + list(_all_blocks(gc._block))
+                fills = [(b, k) for b in blocks for k, s in enumerate(b._statements) if isinstance(s, statement.ttree_fill)]
+                if len(fills) != 1:
+                    return True, "%s: %d Fill statements" % (qs, len(fills))
+                b, k = fills[0]
+                after = b._statements[k + 1:]
+                cleared = [s._collection.as_cpp() for s in after if isinstance(s, statement.container_clear)]
+                other = [type(s).__name__ for s in after if not isinstance(s, statement.container_clear)]
+                missing = [v.as_cpp() for v in vectors if v.as_cpp() not in cleared]
+                if missing:
+                    return True, "%s: the vector column member(s) %s (%s) are not cleared after the Fill: their content carries over to the next event" % (
+                        qs, ", ".join(missing), ", ".join(str(v.cpp_type()) for v in vectors if v.as_cpp() in missing))
+                if other:
+                    return True, "%s: %s follows the Fill in its block" % (qs, other)
+    finally:
+        query_ast_visitor.emit_query = real_emit
+    return False, "every vector column of the probe queries is cleared right after the Fill"
+
+
 if __name__ == "__main__":
     main()
